@@ -1,4 +1,5 @@
 import StepModel.ExpDecl
+import StepModel.ExpDeclSyn
 /-! Line-protocol driver for the exppp model (property C07).
 
   pp <linelen> <t:0|1> <c:0|1> SCHEMA…      -> `P <escaped text>` | `parse-error`
@@ -150,6 +151,42 @@ def rdSchema : Rd Schema := do
     pure ({ name := nm, attrs, wheres := ws } : Entity))
   pure { name, consts, types, entities := ents }
 
+/-! declaration syntax: `ty <type>` and `args <n> {<hexname> <var> <obj> <type>}` -> the tokens of `tyToks` / `argsToks`
+type encoding (prefix): `N <hex>` | `S <KW> <prec 0/1> <fixed 0/1>` | `A <KIND> <bounds 0/1> <uq> <op> <type>` | `G <hex|->` | `GA <hex|-> <type>` -/
+partial def rdTy : Rd Ty := do
+  match (← word) with
+  | "N" => pure (.named (← hexw))
+  | "S" =>
+    let k ← word
+    let hp ← flag
+    let fx ← flag
+    pure (.simple k (if hp then some (.ident "E") else none) fx)
+  | "A" =>
+    let k ← word
+    let hb ← flag
+    let uq ← flag
+    let op ← flag
+    let b ← rdTy
+    pure (.aggr k (if hb then some (.ident "E", .ident "E") else none) uq op b)
+  | "G" =>
+    let l ← word
+    pure (.generic (if l = "-" then none else some (unhex l)))
+  | "GA" =>
+    let l ← word
+    let b ← rdTy
+    pure (.aggregate (if l = "-" then none else some (unhex l)) b)
+  | _ => failure
+
+def dtokStr : DTok → String
+  | .kw s => "k:" ++ s | .id s => "i:" ++ s | .sym s => "s:" ++ s | .ex _ => "E"
+
+def rdParam : Rd Param := do
+  let name ← hexw
+  let var ← flag
+  let obj ← nat
+  let ty ← rdTy
+  pure { name, var, ty, obj }
+
 def esc (s : List Char) : String :=
   String.ofList (s.flatMap fun c => if c = '\n' then ['\\', 'n'] else if c = '\\' then ['\\', '\\'] else [c])
 
@@ -173,6 +210,20 @@ def handle (line : String) : String :=
     | some ts => match parse ts with
       | some e => "T " ++ " ".intercalate ((toks (sharedOf e) e false none).map wordOfTok)
       | none => "parse-error"
+    | none => "bad-op"
+  | "ty" :: rest =>
+    match rdTy.run rest with
+    | some (t, []) => "D " ++ " ".intercalate ((tyToks t).map dtokStr)
+    | _ => "bad-op"
+  | "args" :: n :: rest =>
+    match n.toNat? with
+    | some n =>
+      match (rep n rdParam).run rest with
+      | some (ps, []) =>
+        let triples := (parseParams (ps.length + 64) (argsToks ps ++ [.sym ")"])).map (·.1)
+        "D " ++ " ".intercalate ((argsToks ps).map dtokStr)
+          ++ (if triples == some (ps.map Param.triple) then " | roundtrip-ok" else " | roundtrip-differs")
+      | _ => "bad-op"
     | none => "bad-op"
   | [] => ""
   | _ => "bad-op"
